@@ -263,7 +263,15 @@ def rename_variants(src, targets, limit=6):
                 if isinstance(x, ast.Name) and isinstance(x.ctx, ast.Store) and \
                         x.id not in params and x.id not in locs:
                     locs.append(x.id)
-            # never rename names captured by nested functions' own params / globals
+            # a local whose name also occurs inside a string constant of the
+            # function (numexpr / eval expressions look names up by their text)
+            # is not renamed: that edit would change behaviour
+            import re as _re
+            intext = set()
+            for x in ast.walk(node):
+                if isinstance(x, ast.Constant) and isinstance(x.value, str):
+                    intext.update(_re.findall(r'[A-Za-z_]\w*', x.value))
+            locs = [l for l in locs if l not in intext]
             for old in locs[:2]:
                 if n >= limit:
                     return
